@@ -179,6 +179,7 @@ impl CommonResponse for BedrockResponse {
 
     fn name(&self) -> Option<&str> { Some(&self.name) }
     fn map(&self) -> Option<&str> { self.map.as_deref() }
+    fn game_mode(&self) -> Option<&str> { self.game_mode.as_ref().map(GameMode::as_str) }
     fn game_version(&self) -> Option<&str> { Some(&self.version_name) }
     fn players_maximum(&self) -> u32 { self.players_maximum }
     fn players_online(&self) -> u32 { self.players_online }
@@ -213,6 +214,17 @@ pub enum GameMode {
 }
 
 impl GameMode {
+    /// The name of the game mode, as Bedrock servers report it.
+    pub const fn as_str(&self) -> &'static str {
+        match self {
+            Self::Survival => "Survival",
+            Self::Creative => "Creative",
+            Self::Hardcore => "Hardcore",
+            Self::Spectator => "Spectator",
+            Self::Adventure => "Adventure",
+        }
+    }
+
     pub fn from_bedrock(value: &&str) -> GDResult<Self> {
         match *value {
             "Survival" => Ok(Self::Survival),
